@@ -203,6 +203,49 @@ def r2_3(ctx, rc):
                  ctx.E.eff.classify(n.callee, n.call, n.func)[1]]
         rc.ok({'may_fail_primitives_swallowed': sorted(
             {callee_name(p) for p in prims})}, key=key)
+    # ... nor by leaving one of its loops early: the loops that remove
+    # files, remove / re-create directories and restore backups go through
+    # every element (a failing element is skipped with ``continue``)
+    todo, seenf = [rb], []
+    while todo:
+        f0 = todo.pop()
+        if f0 in seenf:
+            continue
+        seenf.append(f0)
+        for c in ctx.prog.calls_in(f0):
+            for g in ctx.prog.resolve_call(c, f0):
+                if isinstance(g, Func) and not g.is_ctor_call and (
+                        g.cls in (rb.cls, 'FileBackups')) and \
+                        g.name not in ('back_up_and_remove',):
+                    todo.append(g)
+    for f0 in seenf:
+        for lp in ast.walk(f0.node):
+            if not isinstance(lp, (ast.For, ast.While)):
+                continue
+            leaves = []
+            for n in ast.walk(lp):
+                if isinstance(n, (ast.Break, ast.Return)):
+                    # a break that belongs to an inner loop is its own
+                    inner = [l2 for l2 in ast.walk(lp)
+                             if isinstance(l2, (ast.For, ast.While)) and
+                             l2 is not lp and any(x is n
+                                                  for x in ast.walk(l2))]
+                    if isinstance(n, ast.Return) or not inner:
+                        leaves.append(n)
+            key = 'loop at %s:%d of %s goes through every element' % (
+                f0.file, 0, f0.qualname) + ' #%d' % (
+                    [l for l in ast.walk(f0.node) if isinstance(
+                        l, (ast.For, ast.While))].index(lp))
+            if leaves and isinstance(lp, ast.For):
+                rc.violation(
+                    'rollback-loop-left | ' + f0.qualname,
+                    'a loop of the rollback path in %s can be left early '
+                    '(%s): the remaining files / directories / backups are '
+                    'not processed' % (f0.qualname, type(
+                        leaves[0]).__name__.lower()),
+                    ctx.prog.loc(f0, leaves[0]), key=key)
+            elif isinstance(lp, ast.For):
+                rc.ok({'loop_in': f0.qualname}, key=key)
     w = Q.first_unguarded(
         sg, [sg.entry], lambda x: Q.is_done(x, N['restore'].qualname),
         lambda x: x.id in sg.normal_exits())
